@@ -12,6 +12,8 @@ Decided (FACTS: forward must-analysis with value numbering, path-sensitive guard
 Not decided: that estimates return "to within normal tolerance" after the dropout (quantitative).
 Added after the seeding rounds (DESIGN.md 6.6-6.8):
  DROPOUT-EXIT / RECOMPUTED  the zero side of every zero test on a sample norm raises or returns; AQUA.alpha never feeds back into itself.
+ SEED-GUARD  (session 5) the dropout may be the first sample: the producer of the initial attitude of every batch method (ecompass, acc2q, am2q, AQUA.estimate,
+             OLEQ.estimate) guards its divisions by sample norms, a None answer is tested by the caller, or else every per-sample consumer validates its a-priori quaternion first.
 Added after seeding rounds 5 and 6 and refactoring round 4 (DESIGN.md 6.10-6.12):
  ROLEQ.attitude_propagation among the UNIT-RET entries (discharges the unit assumption of the dropout arm).
 """
@@ -234,6 +236,158 @@ def dropout_exit(chk, prog, ref):
     return n
 
 
+
+# ---------------------------------------------------------------------------------------------------------------------------------------------------
+# SEED-GUARD: the dropout may be the FIRST sample.  The batch methods seed the recursion with an attitude computed from row 0 of the sensors; a null row 0
+# must be refused (or replaced by a valid attitude) before the recursion starts, otherwise every later row inherits the NaN.
+BATCH = [F + "madgwick.py::Madgwick._compute_all", F + "mahony.py::Mahony._compute_all", F + "ekf.py::EKF._compute_all", F + "ukf.py::UKF._compute_all",
+         F + "aqua.py::AQUA._compute_all", F + "fourati.py::Fourati._compute_all", F + "roleq.py::ROLEQ._compute_all", F + "fkf.py::FKF._compute_all"]
+SENSOR_NAMES = {"acc", "mag"}
+
+
+def _row0_sensor(node):
+    """`self.acc[0]`, `acc[0]`, `self.mag[0, :]` ..."""
+    if not isinstance(node, ast.Subscript):
+        return False
+    sl = node.slice
+    if isinstance(sl, ast.Tuple) and sl.elts:
+        sl = sl.elts[0]
+    if not (isinstance(sl, ast.Constant) and sl.value == 0):
+        return False
+    v = node.value
+    return (isinstance(v, ast.Name) and v.id in SENSOR_NAMES) or (isinstance(v, ast.Attribute) and v.attr in SENSOR_NAMES)
+
+
+def _may_return_none(f):
+    rets = [n for n in ast.walk(f.node) if isinstance(n, ast.Return)]
+    valued = [r for r in rets if r.value is not None and not (isinstance(r.value, ast.Constant) and r.value.value is None)]
+    return bool(valued) and len(valued) != len(rets)
+
+
+def null_safe(chk, prog, f, _seen=None):
+    """every division by the norm of a raw parameter of `f` (and of the module-level / own-class helpers it hands its parameters to) is guarded.
+    returns (ok, first offending text)"""
+    from sa.callgraph import call_sites
+    _seen = _seen if _seen is not None else set()
+    if f.ref in _seen:
+        return True, None
+    _seen.add(f.ref)
+    chk.touch(f)
+    fa = Facts(f, prog).analyse()
+    for d in fa.divisions:
+        if sample_norm(d["vn"], f) and not d["guarded"]:
+            node = d["node"]
+            return False, "%s: `%s`" % (f.qname, (stmt_text(node) if isinstance(node, ast.stmt) else ast.unparse(node))[:70])
+    params = set(p for p in f.params if p not in ATTITUDE_PARAMS)
+    for node, callee, _ in call_sites(f):
+        if not isinstance(node, ast.Call) or callee.module.rel.startswith("ahrs/common/quaternion") or callee.name in ("__init__", "__new__"):
+            continue
+        if any(isinstance(x, ast.Name) and x.id in params for a in list(node.args) + [k.value for k in node.keywords] for x in ast.walk(a)):
+            ok, why = null_safe(chk, prog, callee, _seen)
+            if not ok:
+                return False, why
+    return True, None
+
+
+def _validates_first(g):
+    """the per-sample method validates its a-priori quaternion before anything can leave the method: `q = Quaternion(q)` (the constructor refuses NaN and
+    null) or `if not np.isclose(np.linalg.norm(q), 1...): raise` precedes every `return`."""
+    if len(g.params) < 2:
+        return False
+    q = g.params[1]
+    for s in g.body():
+        if isinstance(s, ast.Assign) and isinstance(s.value, ast.Call) and ast.unparse(s.value.func).split(".")[-1] == "Quaternion" and s.value.args \
+                and isinstance(s.value.args[0], ast.Name) and s.value.args[0].id == q \
+                and not any(k.arg == "versor" and not (isinstance(k.value, ast.Constant) and k.value.value is True) for k in s.value.keywords):
+            return True
+        if isinstance(s, ast.If) and s.body and isinstance(s.body[-1], ast.Raise):
+            t = ast.unparse(s.test)
+            if "isclose" in t and "norm(%s)" % q in t and isinstance(s.test, ast.UnaryOp) and isinstance(s.test.op, ast.Not):
+                return True
+        if any(isinstance(x, ast.Return) for x in ast.walk(s)):
+            return False
+    return False
+
+
+def seed_guard(chk, prog):
+    from sa.callgraph import call_sites
+    n = 0
+    for ref in BATCH:
+        f = prog.func(ref)
+        chk.touch(f)
+        calls = {id(node): callee for node, callee, _ in call_sites(f) if isinstance(node, ast.Call)}
+        # blocks of statements (to look for a None test between the call and the store)
+        blocks = [b for x in ast.walk(f.node) for b in (getattr(x, "body", None), getattr(x, "orelse", None)) if isinstance(b, list) and b]
+        for block in blocks:
+            for i, s in enumerate(block):
+                if not isinstance(s, ast.Assign):
+                    continue
+                seeds = [c for c in ast.walk(s.value) if isinstance(c, ast.Call) and any(_row0_sensor(a) for a in c.args)]
+                if not seeds:
+                    continue
+                tgt = s.targets[0]
+                store_q0 = isinstance(tgt, ast.Subscript) and isinstance(tgt.slice, ast.Constant) and tgt.slice.value == 0
+                local = tgt.id if isinstance(tgt, ast.Name) else None
+                if not (store_q0 or local):
+                    continue
+                for c in seeds:
+                    callee = calls.get(id(c))
+                    site = "%s::%s" % (ref, ast.unparse(c)[:60])
+                    n += 1
+                    if callee is None:
+                        chk.error("SEED-GUARD: the producer of the initial attitude `%s` in %s cannot be resolved" % (ast.unparse(c)[:60], ref))
+                        continue
+                    ok, why = null_safe(chk, prog, callee)
+                    may_none = _may_return_none(callee)
+                    if ok and may_none:
+                        # the producer answers a null sample with None: the caller has to test it before it reaches the array
+                        tested = False
+                        if local:
+                            for later in block[i + 1:]:
+                                if isinstance(later, ast.If) and isinstance(later.test, ast.Compare) and isinstance(later.test.left, ast.Name) and later.test.left.id == local \
+                                        and isinstance(later.test.ops[0], ast.Is) and isinstance(later.test.comparators[0], ast.Constant) and later.test.comparators[0].value is None \
+                                        and later.body and isinstance(later.body[-1], (ast.Raise, ast.Return)):
+                                    tested = True
+                                    break
+                                if any(isinstance(x, ast.Name) and x.id == local and isinstance(x.ctx, ast.Load) for x in ast.walk(later)):
+                                    break
+                        if tested:
+                            chk.record("SEED-GUARD", site, "the producer returns None for a null first sample and the caller refuses None before seeding the recursion")
+                        else:
+                            why2 = "`%s` returns None for a null first sample; stored into the quaternion array it becomes NaN, nothing tests it, and every later row of the " \
+                                   "batch run inherits the NaN" % callee.qname
+                            chk.record("SEED-GUARD", site, "a null first sample never seeds the recursion with NaN", verdict="VIOLATION", detail=why2)
+                            chk.finding("SEED-GUARD", f.module.rel, f.qname, "unchecked None seed: %s" % ast.unparse(c)[:60], why2, line=s.lineno)
+                        continue
+                    if ok:
+                        chk.record("SEED-GUARD", site, "the producer of the initial attitude guards every division by a sample norm (null first sample refused or answered with a valid attitude)")
+                        continue
+                    # producer not null-safe: the consumer of Q[t-1] must validate it before anything is returned
+                    consumers = []
+                    inline_loop = False
+                    for loop in [x for x in ast.walk(f.node) if isinstance(x, ast.For)]:
+                        found = False
+                        for cc in ast.walk(loop):
+                            if isinstance(cc, ast.Call) and id(cc) in calls and cc.args and isinstance(cc.args[0], ast.Subscript) and "t-1" in ast.unparse(cc.args[0]).replace(" ", "") \
+                                    and calls[id(cc)].cls is f.cls:
+                                consumers.append(calls[id(cc)])
+                                found = True
+                        if not found and any(isinstance(x, ast.Subscript) and "t-1" in ast.unparse(x).replace(" ", "") for x in ast.walk(loop)):
+                            inline_loop = True
+                    if consumers and not inline_loop and all(_validates_first(g) for g in consumers):
+                        chk.record("SEED-GUARD", site, "producer divides by an unguarded norm (%s) but every per-sample consumer (%s) validates its a-priori quaternion before it can return" % (
+                            why, ", ".join(sorted({g.qname for g in consumers}))))
+                    else:
+                        why2 = "the initial attitude comes from %s, which divides by the norm of the first sample without a zero guard; the recursion %s does not validate the " \
+                               "a-priori quaternion before using it, so a null first row makes every row of the batch run NaN" % (
+                                   why, "(inline loop)" if inline_loop or not consumers else "(" + ", ".join(sorted({g.qname for g in consumers if not _validates_first(g)})) + ")")
+                        chk.record("SEED-GUARD", site, "a null first sample never seeds the recursion with NaN", verdict="VIOLATION", detail=why2)
+                        chk.finding("SEED-GUARD", f.module.rel, f.qname, "NaN seed: %s" % ast.unparse(c)[:60], why2, line=s.lineno)
+    if n < 10:
+        chk.error("SEED-GUARD: %d initial-attitude producers found in the batch methods, 12 confirmed by hand" % n)
+    chk.count("SEED-GUARD")
+
+
 def fkf_loop(chk, prog):
     """FKF._compute_all: the per-sample helper is called with raw rows; the helper must guard (checked above)."""
     f = prog.func(F + "fkf.py::FKF._compute_all")
@@ -291,6 +445,7 @@ def run(chk, prog, tier):
     _dr(chk, prog)
     _drm(chk, prog)
     recomputed_rule(chk, prog)
+    seed_guard(chk, prog)
     chk.require_count("GUARD-DIV", 20)
     canaries(chk, prog)
     return __doc__
